@@ -634,4 +634,6 @@ func genC13(tier string, rng *Rng) {
 			runOp(c13RandomWriter(rng, maxOps))
 		}
 	}
+	// (5)-(8) memory level: see c13m.go
+	genC13m(tier, rng)
 }
